@@ -21,6 +21,10 @@ BothUp == ActUp /\ Pre.up /\ A.name \notin {"Restart", "Boot"}
 NewMsgs == IF ~BothUp \/ A.name = "Ready" THEN <<>> ELSE NewSeq(Pre.msgs, Post.msgs)
 NewAfter == IF ~BothUp \/ A.name = "Ready" THEN <<>> ELSE NewSeq(Pre.after, Post.after)
 BecameLeader == ActUp /\ Post.role = "L" /\ ~(Pre.up /\ Pre.role = "L" /\ Pre.term = Post.term /\ A.name \notin {"Restart", "Boot"})
+\* did the acting node's log (or its storage) change in this step?  The pure log predicates
+\* need not be re-evaluated otherwise (nothing they depend on changed for that node).
+LogChanged == ~BothUp \/ Post.uents # Pre.uents \/ Post.uoff # Pre.uoff \/ Post.usnap # Pre.usnap
+              \/ PostD.ents # PreD.ents \/ PostD.cidx # PreD.cidx \/ A.name \in {"Crash", "CrashInAppend"}
 StrictMajorityOf(Q, S) == S = {} \/ IsStrictMajority(Q \cap S, S)
 
 ----------------------------------------------------------------------------
@@ -69,7 +73,7 @@ WellFormedLog(n, d) ==
        /\ \A k \in FirstIndex(n, d)..LastIndex(n, d) :
             LET t == LogTerm(n, d, k) tp == LogTerm(n, d, k - 1)
             IN  t >= 0 /\ tp >= 0 /\ t >= tp /\ EntryAt(n, d, k).index = k
-C03_WellFormed == Acting => WellFormedLog(Post, PostD)
+C03_WellFormed == (Acting /\ LogChanged) => WellFormedLog(Post, PostD)
 
 \* the log of node j as (first, last, term-at, entry-at): the raftLog view if up, the disk otherwise
 LFirst(j) == IF Up(j) THEN FirstIndex(node[j], disk[j]) ELSE StFirst(disk[j])
@@ -87,7 +91,7 @@ MatchingPair(i, j) ==
         IN  \A k \in lo..top :
               /\ LTerm(i, k) = LTerm(j, k)
               /\ (k > lo => Key(LEntry(i, k)) = Key(LEntry(j, k)))
-C03_LogMatching == Acting => \A j \in Node \ {I} : Exists(j) => MatchingPair(I, j)
+C03_LogMatching == (Acting /\ LogChanged) => \A j \in Node \ {I} : Exists(j) => MatchingPair(I, j)
 
 ----------------------------------------------------------------------------
 (* C04 Leader completeness                                                    *)
@@ -325,7 +329,7 @@ C19_SameOutputs == A.det
 (* C20 Proposal integrity                                                     *)
 AllLogEntries(n, d) == IF n.up THEN d.ents \o n.uents ELSE d.ents
 C20_NothingInvented ==
-  Acting => \A k \in DOMAIN AllLogEntries(Post, PostD) :
+  (Acting /\ LogChanged) => \A k \in DOMAIN AllLogEntries(Post, PostD) :
     LET e == AllLogEntries(Post, PostD)[k] IN
       /\ e.pid >= 0
       /\ e.pid > 0 => (e.pid \in DOMAIN hist.props /\ hist.props[e.pid].ret # "dropped"
@@ -333,7 +337,7 @@ C20_NothingInvented ==
       /\ e.pid = 0 => (e.psz = 0 /\ (e.type = "N" \/ (e.type = "CC2" /\ e.cc.changes = <<>>)))
 CountPid(ents, p) == Cardinality({k \in DOMAIN ents : ents[k].pid = p})
 C20_AtMostOncePerDelivery ==
-  ActUp => LET ents == LogEntries(Post, PostD) IN
+  (ActUp /\ LogChanged) => LET ents == LogEntries(Post, PostD) IN
     \A k \in DOMAIN ents :
       ents[k].pid > 0 =>
         CountPid(ents, ents[k].pid) <=
